@@ -100,6 +100,17 @@ def configs():
         schemas["Uni"] = {"oneOf": [R(c) for c in ("Alpha", "Beta", "Gamma")], "discriminator": {"propertyName": "kind"}}
         out.append({"name": f"oneOf/const-{why}", "spec": wrap(schemas),
                     "unions": [{"name": "Uni", "kind": "union", "prop": "kind", "mapping": {}, "members": ["Alpha", "Beta", "Gamma"], "base": None, "implicit": True}]})
+    # ---- two unions over one tag property that share a member: one fully const-tagged, the other with a member that has no const
+    for kw in ("oneOf", "anyOf"):
+        schemas = {}
+        for c, tag in (("Alpha", "a"), ("Beta", "b"), ("Gamma", None)):
+            f, ty, _ = CHILD_FIELDS[c]
+            schemas[c] = {"type": "object", "required": ["kind", f], "properties": {"kind": {"const": tag} if tag else {"type": "string"}, f: {"type": ty}}}
+        schemas["Direct"] = {kw: [R("Alpha"), R("Beta")], "discriminator": {"propertyName": "kind"}}
+        schemas["Mixed"] = {kw: [R("Gamma"), R("Alpha")], "discriminator": {"propertyName": "kind"}}
+        out.append({"name": f"{kw}/two-unions-shared-member", "spec": wrap(schemas),
+                    "unions": [{"name": "Direct", "kind": "union", "prop": "kind", "mapping": {}, "members": ["Alpha", "Beta"], "base": None, "implicit": True},
+                               {"name": "Mixed", "kind": "union", "prop": "kind", "mapping": {}, "members": ["Gamma", "Alpha"], "base": None, "implicit": True}]})
     # ---- members that refer back to the union (they are boxed in the enum)
     for kw in ("oneOf", "anyOf"):
         schemas = {"Alpha": {"type": "object", "required": ["kind"], "properties": {"kind": {"type": "string"}, "av": {"type": "string"}}},
@@ -162,6 +173,54 @@ def configs():
         out.append({"name": f"{kw}/nullable-wrapper", "spec": wrap(schemas),
                     "unions": [{"name": "Uni", "kind": "union", "prop": "kind", "mapping": mapping, "members": ["Alpha", "Beta", "Gamma"], "base": None}]})
     return out
+
+
+def tagname_part(viol):
+    """tag properties whose names are not Rust identifiers (vehicleType, event-kind): a value constructed from the member's
+    Default is written with the tag under the property's own name and is dispatched back to the same member"""
+    schemas = {"Vehicle": {"type": "object", "required": ["vehicleType"], "properties": {"vehicleType": {"type": "string"}},
+                           "discriminator": {"propertyName": "vehicleType", "mapping": {"car": "#/components/schemas/Car", "truck": "#/components/schemas/Truck"}}},
+               "Car": {"allOf": [R("Vehicle"), {"type": "object", "properties": {"doors": {"type": "integer"}}}]},
+               "Truck": {"allOf": [R("Vehicle"), {"type": "object", "properties": {"axles": {"type": "integer"}}}]},
+               "Dispatched": {"type": "object", "required": ["event-kind"], "properties": {"event-kind": {"type": "string"}, "at": {"type": "string"}}},
+               "Delivered": {"type": "object", "required": ["event-kind"], "properties": {"event-kind": {"type": "string"}, "to": {"type": "string"}}},
+               "FleetEvent": {"oneOf": [R("Dispatched"), R("Delivered")], "discriminator": {"propertyName": "event-kind", "mapping": {
+                   "dispatched": "#/components/schemas/Dispatched", "delivered": "#/components/schemas/Delivered"}}}}
+    d = vlib.scratch("C14t")
+    sp = os.path.join(d, "spec.json")
+    json.dump(wrap(schemas), open(sp, "w"))
+    outp = os.path.join(d, "out.rs")
+    rc, txt = vlib.oas(["generate", "types", "-i", sp, "-o", outp, "-q", "--no-helpers", "--all-schemas"], timeout=120)
+    if rc != 0:
+        viol.append(({"name": "tag-names", "spec": wrap(schemas)}, f"tag-names: generation failed rc={rc} {txt[-200:]}", None))
+        return 0
+    members = [("Car", "Vehicle", "vehicleType", "car"), ("Truck", "Vehicle", "vehicleType", "truck"), ("Dispatched", "FleetEvent", "event-kind", "dispatched"), ("Delivered", "FleetEvent", "event-kind", "delivered")]
+    ar = Arena("c14t")
+    ar.add_case(0, outp)
+    lines = []
+    for k, (m, u, prop, tag) in enumerate(members):
+        lines.append(f'{{ let s = serde_json::to_string(&case_0::{m}::default()).unwrap(); let back: Result<case_0::{u}, _> = serde_json::from_str(&s); '
+                     f'println!("{k}\t{{}}\t{{}}", s, match back {{ Ok(v) => format!("{{:?}}", v).split("(").next().unwrap().to_string(), Err(e) => format!("ERR {{}}", e) }}); }}')
+    ar.write_main("fn main() {\n" + "\n".join(lines) + "\n}\n")
+    ok, diags, err = ar.cargo("build")
+    if not ok:
+        viol.append(({"name": "tag-names", "spec": wrap(schemas)}, f"tag-names: the emitted types do not compile: {(diags[0]['message'] if diags else err)[:300]}", None))
+        return 0
+    rc, so, se = ar.run("")
+    got = {}
+    for l in so.strip().split("\n"):
+        parts = l.split("	")
+        if len(parts) == 3:
+            got[int(parts[0])] = (parts[1], parts[2])
+    for k, (m, u, prop, tag) in enumerate(members):
+        enc, back = got.get(k, ("", "no output"))
+        try:
+            doc = json.loads(enc)
+        except Exception:
+            doc = {}
+        if doc.get(prop) != tag or back != m:
+            viol.append(({"name": "tag-names", "spec": wrap(schemas)}, f"tag-names: {m}::default() is written as {enc} (tag property {prop!r} must carry {tag!r}) and read back through {u} as {back}", None))
+    return len(members)
 
 
 def random_configs(rnd, n):
@@ -429,6 +488,7 @@ def main(tier, seed, replay=None):
                         vname = o[1].split("(")[0]
                         if em["variants"].get(vname) != u.get("base"):
                             viol.append((c, f"{c['name']}: document without a usable tag ({p['what']}) is accepted as {vname}", None))
+    n_probe += tagname_part(viol)
     res.counts.update({"evaluations": len(cfgs), "distinct_nontrivial": n_tables, "comparisons": n_tables + n_probe, "probes_run": n_probe,
                        "traces_validated_against_impl": n_tables, "exhaustive": True,
                        "rule": "discriminator configurations {base + allOf children with explicit mapping (1..3 tags per child, string / enum-typed tag, children referring back to the base)} + {oneOf, anyOf} x {explicit, several tags per member, implicit by const, partial mapping, mapping target outside the union, neither mapping nor const} x {string, enum-typed tag} + nested unions + operation filters that leave 0/1/2 children reachable; the emitted Deserialize match (tag -> variant payload type, None arm) read back and compared with the extracted model; compiled types probed with one document per mapped tag, an unmapped tag, a missing tag, a non-string tag: decoded variant, acceptance, and the tag written by re-encoding"})
